@@ -208,3 +208,21 @@ Definition judge_coll (universe : list member) (ops : list cop) (impl : list obs
   | [] => match first_diff (run_cops empty_coll ops) impl 0 with [] => [V_AGREE] | d => d end
   | d => d
   end.
+
+(* ---- a member's own attribute is assigned while it sits in a collection (finding D60) ----
+   The collection is not told: items and the cached sorted view hold the same object, whose attributes change; the dirty flag
+   does not.  [cmutate] is that step; [judge_mutation] replays: the listed members added one by one, one iteration (which fills
+   the cache), the assignment, a second iteration -- and compares the second iteration with what the implementation showed, then
+   asks whether it is in the order of the sort key (default key: first attribute, descending). *)
+Definition set_attrs (id : nat) (a : list Q) (m : member) : member := if Nat.eqb (mid m) id then mkM (mid m) (mname m) a else m.
+Definition cmutate (c : coll) (id : nat) (a : list Q) : coll :=
+  mkC (map (fun p => (fst p, set_attrs id a (snd p))) (items c)) (skey c) (srev c) (map (set_attrs id a) (cache c)) (dirty c).
+Definition coll_of (ms : list member) : coll :=
+  fold_left (fun c m => match cstep c (CAdd m None true) with Ok (c', _) => c' | Err _ => c end) ms empty_coll.
+Definition iter_after_mutation (ms : list member) (id : nat) (a : list Q) : list member :=
+  let c1 := ensure_sorted (coll_of ms) in cache (ensure_sorted (cmutate c1 id a)).
+Definition judge_mutation (ms : list member) (id : nat) (a : list Q) (impl_iter : list nat) : list Z :=
+  let l := iter_after_mutation ms id a in
+  if negb (if list_eq_dec Nat.eq_dec (map mid l) impl_iter then true else false) then [V_MISMATCH; 1%Z]
+  else if negb (sorted_b (keeps_front [0%nat] true) l) then [V_PROP_FALSE; 60%Z]
+  else [V_AGREE].
